@@ -351,7 +351,7 @@ impl ScalarQuantizer {
             norm_b += vb * vb;
         }
 
-        let denom = (norm_a * norm_b).sqrt();
+        let denom = norm_a.sqrt() * norm_b.sqrt();
         if denom < f32::EPSILON {
             1.0 // Maximum distance for zero vectors
         } else {
